@@ -34,7 +34,7 @@ package queue
 //@ params q, elem
 //@ requires elem != nil
 //@ modifies heap, ghost(q.$adds)
-//@ preserves all(server.server.*), all(server.client.* - pl), all(server.ClientOptions.*), all(server.Hooks.*), all(server.SubscribeRequest.*), all(gmqtt.Subscription.*), all(gmqtt.Message.*), all(codes.Error.*), all(Elem.*), all(Publish.*), all(packets.Subscribe.*), all(packets.Suback.*), all(packets.Properties.*), allelems(packets.Topic), allelems(codes.Code), allelems(elem(subscription.SubscribeResult)), allelems(*gmqtt.Message), allelems(uint32), allmaps(string, elem(fieldtype(server.SubscribeRequest.Subscriptions))), all(elem(elem(fieldtype(server.SubscribeRequest.Subscriptions))).*)
+//@ preserves all(server.server.*), all(server.client.* - pl), all(server.ClientOptions.*), all(server.Hooks.*), all(server.SubscribeRequest.*), all(gmqtt.Subscription.*), all(gmqtt.Message.*), all(codes.Error.*), all(Elem.*), all(Publish.*), all(packets.Subscribe.*), all(packets.Suback.*), all(packets.Properties.*), allelems(packets.Topic), allelems(codes.Code), allelems(elem(subscription.SubscribeResult)), allelems(*gmqtt.Message), allelems(uint32), allmaps(string, elem(fieldtype(server.SubscribeRequest.Subscriptions))), all(elem(elem(fieldtype(server.SubscribeRequest.Subscriptions))).*), all(server.deliverHandler.*), allmaps(string, elem(fieldtype(server.deliverHandler.sl))), allelems(elem(elem(fieldtype(server.deliverHandler.sl)))), allmaps(string, elem(fieldtype(server.deliverHandler.mq))), all(elem(elem(fieldtype(server.deliverHandler.mq))).*), allmaps(string, Store)
 //@ ensures q.$adds == old(q.$adds) + 1
 
 // ElemExpiry: an element is expired iff it has an expiry time and now is after it.
